@@ -949,7 +949,7 @@ def check(chk):
             r2 = random.Random(sd * 31 + kt)
             if exh_cap is None:
                 # thorough: the +0/-0/NaN and the mixed-dynamic-type universes completely; seeded samples of the others
-                cap = {"f64": None, "any": None, "anyf": 40000}.get(u, 40000 if kt == 0 else 10000)
+                cap = {"f64": None, "any": None, "anyf": 20000}.get(u, 30000 if kt == 0 else 10000)
                 if cap is not None:
                     sel = sorted(r2.sample(names, min(len(names), cap)))
             if exh_cap is not None:
